@@ -6,7 +6,8 @@
     [ns]), the flush goroutine, any batches (contiguous, gapped, out of order,
     repeated) entering the writes channel at any time ([Enq]), any context
     cancellations ([Cancel]), interleaved in any order at the granularity of
-    the code's synchronisation points; from every well-formed started store
+    the code's synchronisation points (store at 33d75f6: pending.Append before ensureInit; WaitFor
+    looks the height up again after registering); from every well-formed started store
     ([hd], [tl] = Head/Tail pointers, [m] = stored headers, [q] = batches
     already queued). A reader is addressed by its index i; [r_n r] is the
     height it asked for. *)
@@ -37,48 +38,55 @@ Theorem C12_blocks_until_stored_or_cancelled :
   end.
 Proof. exact returns_only_when_due. Qed.
 
-(** No lost wake-up, exactly as far as it holds. In every reachable state, for a reader that is
-    parked (in Wait's select, its sub not closed):
-    (1) when the flush goroutine is between flushes, Height() is below the requested height and
-        Height() = Head's height -- i.e. once Head has reached n nobody waits for n;
-    (2) when every flush has finished and the requested height was appended, the reader
-        registered only after Notify had already announced that height ([r_late], a ghost flag
-        set at registration). Together: the ONLY reader still blocked on a stored header is one
-        for a height above Head (not contiguous) whose registration came after the Notify.
-
-    The full statement
-      forall ... , writer_idle s = true -> In (r_n r) (map fst (concat q ++ enqueued sched)) ->
-                   r_pc r <> RParked false
-    is FALSE of the current code: see [C12_no_lost_wakeup_refuted] (known finding F5). *)
-Theorem C12_no_lost_wakeup_partial :
+(** No lost wake-up, at full strength: in every reachable state in which every flush has finished,
+    no call for a height that was handed to Append -- adjacent to Head or not, appended before,
+    during or after the call's lookups, in any interleaving -- is blocked in WaitFor's select. *)
+Theorem C12_no_lost_wakeup :
   forall hd tl m ns q sched i r, wf_init hd tl m ->
   let s := run sched (init hd tl m ns q) in
-  nth_error (st_readers s) i = Some r -> r_pc r = RParked false ->
-  (st_w s = WIdle -> st_hsh s < r_n r /\ st_hsh s = hsh_of (st_head s)) /\
-  (writer_idle s = true -> In (r_n r) (map fst (concat q ++ enqueued sched)) -> r_late r = true).
-Proof. exact no_lost_wakeup_precise. Qed.
+  nth_error (st_readers s) i = Some r ->
+  writer_idle s = true -> In (r_n r) (map fst (concat q ++ enqueued sched)) ->
+  blocked r = false.
+Proof. exact no_lost_wakeup. Qed.
+
+(** ... and it returns: once the flush that appended height n has passed Notify (in particular once
+    it has finished, [C12_flushed_is_notified]), a call for n has returned after seven of its own
+    steps, whatever all other threads do meanwhile -- with a result other than ErrNotFound (so, by
+    [C12_blocks_until_stored_or_cancelled], the header, or its context's error if that ended). *)
+Theorem C12_appended_returns :
+  forall hd tl m ns q sched1 sched2 i r, wf_init hd tl m ->
+  let s := run sched1 (init hd tl m ns q) in
+  nth_error (st_readers s) i = Some r -> In (r_n r) (st_notified s) ->
+  (7 <= rd_count sched2 i)%nat ->
+  exists r' x, nth_error (st_readers (run sched2 s)) i = Some r' /\ r_pc r' = RDone x /\
+               (x = RNotFound -> r_pc r = RDone RNotFound).
+Proof. exact appended_returns. Qed.
+
+Theorem C12_flushed_is_notified :
+  forall hd tl m ns q sched n,
+  let s := run sched (init hd tl m ns q) in
+  writer_idle s = true -> In n (map fst (concat q ++ enqueued sched)) -> In n (st_notified s).
+Proof. exact flushed_is_notified. Qed.
+
+(** Who may still wait: between flushes, a registered waiter asked for a height above Height(),
+    and Height() is Head's height -- a call waits only for heights the store does not have yet. *)
+Theorem C12_waits_only_above_height :
+  forall hd tl m ns q sched i r, wf_init hd tl m ->
+  let s := run sched (init hd tl m ns q) in
+  nth_error (st_readers s) i = Some r -> parked r = true -> st_w s = WIdle ->
+  st_hsh s < r_n r /\ st_hsh s = hsh_of (st_head s).
+Proof. exact waiter_above_height. Qed.
 
 (** A reader that is registered when the flush reaches Notify for a batch containing its height
-    is woken by that Notify -- contiguous or not -- and never parks again. *)
-Theorem C12_no_lost_wakeup_registered_first :
+    is woken by that Notify -- contiguous or not -- and never waits again. *)
+Theorem C12_registered_first_woken :
   forall hd tl m ns q sched1 sched2 i r hs, wf_init hd tl m ->
   let s1 := run sched1 (init hd tl m ns q) in
-  st_w s1 = WNotify hs -> nth_error (st_readers s1) i = Some r -> r_pc r = RParked false ->
+  st_w s1 = WNotify hs -> nth_error (st_readers s1) i = Some r -> parked r = true ->
   In (r_n r) (map fst hs) ->
   exists r', nth_error (st_readers (run (sched1 ++ Wr :: sched2) (init hd tl m ns q))) i = Some r' /\
              past (r_pc r').
-Proof. exact no_lost_wakeup_registered_first. Qed.
-
-(** The lost wake-up (F5): Head = 1; the reader for 3 does its first lookup; [3] is appended and
-    flushed (Notify(3) finds no sub; head stays 1); the reader registers and parks. The final
-    state has the header stored, every flush finished, the reader parked and not cancelled, and
-    no step of any thread changes it: only a cancellation or a further Append can. *)
-Theorem C12_no_lost_wakeup_refuted :
-  exists sched ns, let s := run sched (init None None [] ns []) in
-    writer_idle s = true /\ In 3 (map fst (enqueued sched)) /\ lookup s 3 <> None /\
-    (exists r, nth_error (st_readers s) 0 = Some r /\ r_n r = 3 /\ r_pc r = RParked false /\ r_cancel r = false) /\
-    (forall e, (forall j, e <> Cancel j) -> (forall hs, e <> Enq hs) -> step s e = s).
-Proof. exact no_lost_wakeup_refuted. Qed.
+Proof. exact registered_first_woken. Qed.
 
 (** At or below Height(): a call that has not yet entered Wait's select when Height() >= n never
     parks, and has returned after three of its own steps, whatever the others do; with
@@ -90,30 +98,31 @@ Theorem C12_below_height_prompt_notfound :
   (r_pc r = RStart \/ r_pc r = RCheck1 \/ r_pc r = RLocked) ->
   r_n r <> 0 -> r_n r <= st_hsh s ->
   exists r', nth_error (st_readers (run sched2 s)) i = Some r' /\
-    (forall sig, r_pc r' <> RParked sig) /\
+    (forall ph sig, r_pc r' <> RWait ph sig) /\
     ((3 <= rd_count sched2 i)%nat -> r_pc r' = RDone RNotFound \/ exists id, r_pc r' = RDone (RFound id)) /\
     (lookup s (r_n r) <> None -> r_pc r' <> RDone RNotFound).
 Proof. exact below_height_prompt. Qed.
 
-(** A cancelled context always releases the caller: from ANY state, after Cancel i, five steps of
+(** A cancelled context always releases the caller: from ANY state, after Cancel i, seven steps of
     reader i suffice for it to have returned, whatever every other thread does in between. *)
 Theorem C12_cancel_releases :
   forall (s : state) (i : nat) (sched : list event),
-  (i < length (st_readers s))%nat -> (5 <= rd_count sched i)%nat ->
+  (i < length (st_readers s))%nat -> (7 <= rd_count sched i)%nat ->
   exists r' x, nth_error (st_readers (run (Cancel i :: sched) s)) i = Some r' /\ r_pc r' = RDone x.
 Proof. exact cancel_releases. Qed.
 
-(** Other waiters: any step of reader i (in particular its cancellation and the notify(n,false)
-    that follows) leaves every other reader's record exactly as it was -- still parked, to be
-    woken as the theorems above say -- except that it may close the sub they wait on when the
-    header of that height is already stored (they then return it). *)
+(** Other waiters: any step of reader i (in particular its cancellation, or its de-registration
+    after the re-lookup, with the notify(n,false) that follows) leaves every other reader's record
+    exactly as it was -- still waiting, to be woken as the theorems above say -- except that it may
+    close the sub they wait on when the header of that height is already stored (they then
+    return it). *)
 Theorem C12_other_waiters_unaffected :
   forall hd tl m ns q sched e i j rj, wf_init hd tl m -> i <> j ->
   (e = Rd i \/ e = RdCtx i \/ e = Cancel i) ->
   let s := run sched (init hd tl m ns q) in
   nth_error (st_readers s) j = Some rj ->
   nth_error (st_readers (step s e)) j = Some rj \/
-  (r_pc rj = RParked false /\ nth_error (st_readers (step s e)) j = Some (sig_of rj) /\ lookup s (r_n rj) <> None).
+  (parked rj = true /\ nth_error (st_readers (step s e)) j = Some (sig_of rj) /\ lookup s (r_n rj) <> None).
 Proof. exact other_waiters_unaffected. Qed.
 
 (** nextHead's fuel is never exhausted: it stops at a missing height. *)
@@ -123,28 +132,38 @@ Proof. exact adv_up_complete. Qed.
 
 (** non-vacuity: a parked reader is woken by a contiguous append and returns the header *)
 Example C12_example_woken :
-  let s := run ([Enq [(1, 1)]] ++ repeat Wr 10 ++ repeat (Rd 0) 4 ++ [Enq [(2, 7)]] ++ repeat Wr 10 ++ [Rd 0; Rd 0])
+  let s := run ([Enq [(1, 1)]] ++ repeat Wr 12 ++ repeat (Rd 0) 6 ++ [Enq [(2, 7)]] ++ repeat Wr 12 ++ [Rd 0; Rd 0])
                (init None None [] [2] []) in
   option_map r_pc (nth_error (st_readers s) 0) = Some (RDone (RFound 7)) /\ st_hsh s = 2.
 Proof. vm_compute. auto. Qed.
 
-(** non-vacuity: the hypotheses of C12_no_lost_wakeup_registered_first are met by a gapped append *)
+(** the schedule that lost the wake-up before 33d75f6 (former C12_no_lost_wakeup_refuted, finding F5):
+    Head = 1; the reader for 3 does its first lookup; [3] is appended and flushed (Notify(3) finds
+    no sub; Head stays 1); the reader registers -- and now looks again, finds 3, returns it *)
+Example C12_example_former_lost_wakeup :
+  let s := run lost_wakeup_sched (init None None [] [3] []) in
+  option_map r_pc (nth_error (st_readers s) 0) = Some (RDone (RFound 3)) /\ st_hsh s = 1 /\ st_subs s = [].
+Proof. vm_compute. auto. Qed.
+
+(** non-vacuity: the hypotheses of C12_registered_first_woken are met by a gapped append *)
 Example C12_example_registered_first :
-  let s1 := run ([Enq [(1, 1)]] ++ repeat Wr 10 ++ repeat (Rd 0) 4 ++ [Enq [(3, 9)]; Wr; Wr]) (init None None [] [3] []) in
-  st_w s1 = WNotify [(3, 9)] /\ option_map r_pc (nth_error (st_readers s1) 0) = Some (RParked false).
+  let s1 := run ([Enq [(1, 1)]] ++ repeat Wr 12 ++ repeat (Rd 0) 4 ++ [Enq [(3, 9)]; Wr; Wr; Wr]) (init None None [] [3] []) in
+  st_w s1 = WNotify [(3, 9)] /\ option_map r_pc (nth_error (st_readers s1) 0) = Some (RWait PSelect false).
 Proof. vm_compute. auto. Qed.
 
 (** non-vacuity: at or below Height() and not stored *)
 Example C12_example_below :
-  let s := run ([Enq [(5, 5)]] ++ repeat Wr 10 ++ repeat (Rd 0) 3) (init None None [] [3] []) in
+  let s := run ([Enq [(5, 5)]] ++ repeat Wr 12 ++ repeat (Rd 0) 3) (init None None [] [3] []) in
   option_map r_pc (nth_error (st_readers s) 0) = Some (RDone RNotFound) /\ st_hsh s = 5.
 Proof. vm_compute. auto. Qed.
 
 Print Assumptions C12_result_is_the_header.
 Print Assumptions C12_blocks_until_stored_or_cancelled.
-Print Assumptions C12_no_lost_wakeup_partial.
-Print Assumptions C12_no_lost_wakeup_registered_first.
-Print Assumptions C12_no_lost_wakeup_refuted.
+Print Assumptions C12_no_lost_wakeup.
+Print Assumptions C12_appended_returns.
+Print Assumptions C12_flushed_is_notified.
+Print Assumptions C12_waits_only_above_height.
+Print Assumptions C12_registered_first_woken.
 Print Assumptions C12_below_height_prompt_notfound.
 Print Assumptions C12_cancel_releases.
 Print Assumptions C12_other_waiters_unaffected.
